@@ -22,5 +22,8 @@ if "gfunc" in p:
     gb = SimpleNamespace(x=g["x"], y=g["ybhw"])
     design = SimpleNamespace(ghe=SimpleNamespace(bhe=SimpleNamespace(b=SimpleNamespace(H=100.0)), B_spacing=5.0,
                                                  grab_g_function=lambda bh: (gf, gb)))
-    out["g_rows"] = OutputManager.get_g_function_data(design)
+    try:
+        out["g_rows"] = OutputManager.get_g_function_data(design)
+    except Exception as ex:      # the stub object offers what the writer is documented to read: grab_g_function (the curve used in the simulation)
+        out["g_rows_error"] = f"{type(ex).__name__}: {str(ex)[:200]}"
 emit(out)
